@@ -209,6 +209,16 @@ type Raft struct {
 	// The timestamp representing the time of the last contact by the leader.
 	lastContact time.Time
 
+	// Indicates that the apply loop is applying a replicated operation to the
+	// state machine while the lock is released.
+	applying bool
+
+	// Indicates that a snapshot of the state machine is being taken or restored
+	// while the lock is released. Replicated operations are not applied in the
+	// meantime so that the snapshot reflects exactly the operations up to its
+	// last included index.
+	snapshotting bool
+
 	wg sync.WaitGroup
 
 	mu sync.Mutex
@@ -1452,6 +1462,20 @@ func (r *Raft) InstallSnapshot(
 		r.logger.Fatalf("failed to get snapshot file: error = %v", err)
 	}
 
+	// An operation that is still being applied must not land on top of the restored state.
+	if !r.pauseApply() {
+		return nil
+	}
+
+	// Operations may have been applied while waiting. Never move the state machine backwards.
+	if r.lastApplied >= request.LastIncludedIndex {
+		r.resumeApply()
+		if err := snapshot.Close(); err != nil {
+			r.logger.Fatalf("failed to close snapshot file: error = %v", err)
+		}
+		return nil
+	}
+
 	// Restore the state machine with the snapshot.
 	// This could take a while so it's probably best that the lock is released.
 	r.mu.Unlock()
@@ -1467,6 +1491,7 @@ func (r *Raft) InstallSnapshot(
 		r.logger.Fatalf("failed to close snapshot file: error = %v", err)
 	}
 	r.mu.Lock()
+	defer r.resumeApply()
 
 	if r.state == Shutdown {
 		return nil
@@ -1516,6 +1541,14 @@ func (r *Raft) snapshotLoop() {
 // only be taken if there is new state since the previous snapshot and there
 // is not a pending configuration change.
 func (r *Raft) takeSnapshot() {
+	// The label of the snapshot is the last applied index. Ensure that no operation is being
+	// applied and that none will be applied until the state machine has written the snapshot,
+	// otherwise the snapshot would contain operations beyond its last included index.
+	if !r.pauseApply() {
+		return
+	}
+	defer r.resumeApply()
+
 	// There is nothing new to snapshot.
 	if r.lastApplied <= r.lastIncludedIndex {
 		return
@@ -1665,6 +1698,34 @@ func (r *Raft) sendInstallSnapshot(id, address string) {
 	follower.nextIndex = request.LastIncludedIndex + 1
 }
 
+// pauseApply stops the apply loop from applying further replicated operations and waits for
+// an operation that is currently being applied to finish. It returns false if the node was
+// shut down in the meantime, in which case the apply loop is not paused. Every successful
+// call must be followed by a call to resumeApply. The lock must be held.
+func (r *Raft) pauseApply() bool {
+	for r.snapshotting && r.state != Shutdown {
+		r.applyCond.Wait()
+	}
+	if r.state == Shutdown {
+		return false
+	}
+	r.snapshotting = true
+	for r.applying && r.state != Shutdown {
+		r.applyCond.Wait()
+	}
+	if r.state == Shutdown {
+		r.resumeApply()
+		return false
+	}
+	return true
+}
+
+// resumeApply allows the apply loop to apply replicated operations again.
+func (r *Raft) resumeApply() {
+	r.snapshotting = false
+	r.applyCond.Broadcast()
+}
+
 // heartbeatLoop is a long running loop that periodically sends heartbeats to
 // followers if this node is the leader.
 func (r *Raft) heartbeatLoop() {
@@ -1754,6 +1815,12 @@ func (r *Raft) applyLoop() {
 		// Scan the log starting at the entry following the last applied entry
 		// and apply any entries that have been committed.
 		for r.lastApplied < r.commitIndex && r.state != Shutdown {
+			// Do not apply any operations while the state machine is being snapshotted or restored.
+			if r.snapshotting {
+				r.applyCond.Wait()
+				continue
+			}
+
 			entry, err := r.log.GetEntry(r.lastApplied + 1)
 			if err != nil {
 				r.logger.Fatalf("failed to get entry from log: error = %v", err)
@@ -1776,6 +1843,7 @@ func (r *Raft) applyLoop() {
 				}
 				lastApplied := r.lastApplied
 
+				r.applying = true
 				r.mu.Unlock()
 				response := OperationResponse{
 					Operation:           operation,
@@ -1789,6 +1857,10 @@ func (r *Raft) applyLoop() {
 					operation.OperationType.String(),
 				)
 				r.mu.Lock()
+				r.applying = false
+				if r.snapshotting {
+					r.applyCond.Broadcast()
+				}
 
 				// It's possible a snapshot was installed while the lock was released.
 				// It's not safe to increment the last applied index if it has changed.
